@@ -401,3 +401,34 @@ func c03Check(want []string) {
 	}
 	zzsym.Reach("hooks.checked")
 }
+
+func Setup_C03_concurrent() { Setup_C03_gates() }
+
+// Harness_C03_concurrent: two requests in flight on one Executor (every
+// interleaving at synchronisation points, happens-before race check on every
+// access): each gets the verdict it gets alone, and the executor has no data
+// race - with suggestions on or off, with or without a shared query cache.
+func Harness_C03_concurrent() {
+	e := New(c03ES{})
+	if zzsym.Choice("nosuggest", 2) == 1 {
+		e.SetDisableSuggestion(true)
+	}
+	if zzsym.Choice("cache", 2) == 1 {
+		e.SetQueryCache(graphql.MapCache[*ast.QueryDocument]{})
+	}
+	reqs := []c03Req{c03Corpus[0], c03Corpus[5]}
+	ok := make([]bool, 2)
+	done := make(chan int, 2)
+	for k := range reqs {
+		k := k
+		go func() {
+			_, errs := e.CreateOperationContext(graphql.StartOperationTrace(context.Background()), &graphql.RawParams{Query: reqs[k].query})
+			ok[k] = len(errs) == 0
+			done <- k
+		}()
+	}
+	<-done
+	<-done
+	zzsym.Assert(ok[0] && !ok[1], "concurrent requests get the verdicts they get alone")
+	zzsym.Reach("c03.concurrent")
+}
